@@ -849,3 +849,188 @@ example :
      .done 3 .disconnected 253952] := by decide +kernel
 
 end HapVerif.ReqConn
+
+/-! ## Inside one loop iteration (`ReqConn.Micro`): position-based attribution survives cancellations that have not
+been cleaned up yet -/
+
+namespace HapVerif.ReqConn.Micro
+
+/-- the invariant of the micro-step automaton -/
+structure MInv (s : St) : Prop where
+  idxs : s.fifo.map (·.idx) = List.range' s.nResp s.fifo.length
+  count : s.up = true → s.nWritten = s.nResp + s.fifo.length
+  fifoWrote : ∀ e ∈ s.fifo, (e.id, e.idx) ∈ s.wrote
+  pendWrote : ∀ p ∈ s.pendingDone, p ∈ s.wrote
+  logWrote : ∀ id k, (id, Outcome.ok k) ∈ s.log → (id, k) ∈ s.wrote
+  wroteIdx : s.wrote.map (·.2) = List.range s.nWritten
+
+theorem MInv_init : MInv {} := ⟨rfl, fun _ => rfl, by simp, by simp, by simp, rfl⟩
+
+theorem settle_inv (s : St) (h : MInv s) : MInv (settle s) := by
+  obtain ⟨h1, h2, h3, h4, h5, h6⟩ := h
+  unfold settle
+  simp only
+  split
+  · refine ⟨by simp, by simp, by simp, by simp, ?_, h6⟩
+    intro id k hm
+    simp only [List.mem_append, List.mem_map, Prod.mk.injEq] at hm
+    rcases hm with (((hm | hm) | hm) | hm) | hm
+    · exact h5 id k hm
+    · obtain ⟨p, hp, rfl, hk⟩ := hm
+      cases hk
+      exact h4 p hp
+    · obtain ⟨_, _, _, hk⟩ := hm; cases hk
+    · obtain ⟨_, _, _, hk⟩ := hm; cases hk
+    · obtain ⟨_, _, _, hk⟩ := hm; cases hk
+  · refine ⟨h1, h2, h3, by simp, ?_, h6⟩
+    intro id k hm
+    simp only [List.mem_append, List.mem_map, Prod.mk.injEq] at hm
+    rcases hm with hm | hm
+    · exact h5 id k hm
+    · obtain ⟨p, hp, rfl, hk⟩ := hm
+      cases hk
+      exact h4 p hp
+
+theorem step_inv (s : St) (e : Ev) (h : MInv s) : MInv (step s e) := by
+  cases e with
+  | tick => exact settle_inv s h
+  | write id =>
+    have hs := settle_inv s h
+    simp only [step]
+    generalize settle s = s' at hs
+    obtain ⟨h1, h2, h3, h4, h5, h6⟩ := hs
+    split
+    · rename_i hup
+      have hc := h2 hup
+      refine ⟨?_, ?_, ?_, ?_, ?_, ?_⟩
+      · simp only [List.map_append, List.map_cons, List.map_nil, List.length_append, List.length_cons, List.length_nil]
+        rw [h1, hc]
+        simp [List.range'_concat]
+      · intro _; simp only [List.length_append, List.length_cons, List.length_nil]; omega
+      · intro e he
+        simp only [List.mem_append, List.mem_singleton] at he
+        rcases he with he | rfl
+        · exact List.mem_append_left _ (h3 e he)
+        · simp
+      · intro p hp; exact List.mem_append_left _ (h4 p hp)
+      · intro i k hm; exact List.mem_append_left _ (h5 i k hm)
+      · simp only [List.map_append, List.map_cons, List.map_nil, h6]
+        exact (List.range_succ (n := s'.nWritten)).symm
+    · refine ⟨h1, h2, h3, h4, ?_, h6⟩
+      intro i k hm
+      simp only [List.mem_append, List.mem_singleton, Prod.mk.injEq] at hm
+      rcases hm with hm | ⟨_, hk⟩
+      · exact h5 i k hm
+      · cases hk
+  | deliver =>
+    obtain ⟨h1, h2, h3, h4, h5, h6⟩ := h
+    simp only [step]
+    split
+    · exact ⟨h1, h2, h3, h4, h5, h6⟩
+    · split
+      · rename_i hf
+        refine ⟨by simp [hf], by simp, by simp [hf], h4, h5, h6⟩
+      · rename_i e rest hf
+        rw [hf] at h1 h3
+        simp only [List.map_cons, List.length_cons, List.range'_succ, List.cons.injEq] at h1
+        have hcount : s.up = true → s.nWritten = s.nResp + 1 + rest.length := by
+          intro hu; have := h2 hu; rw [hf] at this; simp only [List.length_cons] at this; omega
+        split
+        · refine ⟨h1.2, hcount, fun x hx => h3 x (List.mem_cons_of_mem _ hx), h4, h5, h6⟩
+        · refine ⟨h1.2, hcount, fun x hx => h3 x (List.mem_cons_of_mem _ hx), ?_, h5, h6⟩
+          intro p hp
+          simp only [List.mem_append, List.mem_singleton] at hp
+          rcases hp with hp | rfl
+          · exact h4 p hp
+          · have := h3 e (by simp)
+            rw [h1.1] at this; exact this
+  | giveUp id =>
+    obtain ⟨h1, h2, h3, h4, h5, h6⟩ := h
+    simp only [step]
+    split
+    · refine ⟨h1, h2, h3, ?_, h5, h6⟩
+      intro p hp
+      exact h4 p (List.mem_filter.mp hp).1
+    · refine ⟨?_, ?_, ?_, h4, h5, h6⟩
+      · show List.map (fun x : Entry => x.idx) (List.map _ s.fifo) = List.range' s.nResp (List.map _ s.fifo).length
+        rw [List.length_map, ← h1, List.map_map]
+        apply List.map_congr_left
+        intro e _
+        simp only [Function.comp]
+        split <;> rfl
+      · intro hu; rw [List.length_map]; exact h2 hu
+      · intro e he
+        simp only [List.mem_map] at he
+        obtain ⟨e0, he0, rfl⟩ := he
+        have := h3 e0 he0
+        split <;> exact this
+
+theorem run_inv (evs : List Ev) (s : St) (h : MInv s) : MInv (run s evs) := by
+  induction evs generalizing s with
+  | nil => exact h
+  | cons e es ih => exact ih _ (step_inv s e h)
+
+end HapVerif.ReqConn.Micro
+
+namespace HapVerif.ReqConn
+open Micro (MInv MInv_init settle Entry)
+
+/-- **Position-based attribution, at every instant**: in every history of writes, reads, cancellations that have
+    not been cleaned up yet and loop iterations, a caller that completes with the k-th response read on the connection
+    is the caller whose request was the k-th written on it. -/
+theorem C08_micro_position (evs : List Micro.Ev) (id k : Nat) (h : (id, Micro.Outcome.ok k) ∈ (Micro.run {} evs).log) :
+    (id, k) ∈ (Micro.run {} evs).wrote :=
+  (Micro.run_inv evs {} MInv_init).logWrote id k h
+
+/-- the positions of the written requests are distinct, so **no caller ever completes with the response that was
+    sent for another caller's request** - in particular not the caller next in line when the head has been
+    cancelled and its response arrives before its task has closed the transport -/
+theorem C08_micro_no_stale (evs : List Micro.Ev) (a b k : Nat) (ha : (a, k) ∈ (Micro.run {} evs).wrote)
+    (hb : (b, Micro.Outcome.ok k) ∈ (Micro.run {} evs).log) : ∃ i j : Nat, (Micro.run {} evs).wrote[i]? = some (a, k) ∧
+      (Micro.run {} evs).wrote[j]? = some (b, k) ∧ i = j := by
+  have hinv := Micro.run_inv evs {} MInv_init
+  have hb' := hinv.logWrote b k hb
+  generalize Micro.run {} evs = s at *
+  obtain ⟨i, hi⟩ := List.getElem?_of_mem ha
+  obtain ⟨j, hj⟩ := List.getElem?_of_mem hb'
+  refine ⟨i, j, hi, hj, ?_⟩
+  have hmi : (s.wrote.map (·.2))[i]? = some k := by simp [List.getElem?_map, hi]
+  have hmj : (s.wrote.map (·.2))[j]? = some k := by simp [List.getElem?_map, hj]
+  rw [hinv.wroteIdx] at hmi hmj
+  obtain ⟨_, hi2⟩ := List.getElem?_eq_some_iff.mp hmi
+  obtain ⟨_, hj2⟩ := List.getElem?_eq_some_iff.mp hmj
+  simp only [List.getElem_range] at hi2 hj2
+  omega
+
+/-- a response read while the head of the queue has already given up **completes nobody**: it is discarded, and
+    the caller that gave up will close the transport when its task runs -/
+theorem C08_micro_stale_response_dropped (s : Micro.St) (e : Entry) (rest : List Entry) (hup : s.up = true)
+    (hf : s.fifo = e :: rest) (hg : e.gaveUp = true) :
+    (Micro.step s .deliver).pendingDone = s.pendingDone ∧ (Micro.step s .deliver).log = s.log ∧
+    (Micro.step s .deliver).fifo = rest ∧ e.id ∈ (Micro.step s .deliver).closers := by
+  simp [Micro.step, hup, hf, hg]
+
+/-- and once the loop runs, everything still waiting fails with a disconnection error and the transport is closed -/
+theorem C08_micro_give_up_closes (s : Micro.St) (h : (s.fifo.filter (·.gaveUp)) ≠ [] ∨ s.closers ≠ []) :
+    (settle s).up = false ∧ (settle s).fifo = [] ∧
+    ∀ e ∈ s.fifo, e.gaveUp = false → (e.id, Micro.Outcome.disconnected) ∈ (settle s).log := by
+  have hc : (!s.closers.isEmpty || !(s.fifo.filter (·.gaveUp)).isEmpty || !s.up) = true := by
+    rcases h with h | h
+    · have : (s.fifo.filter (·.gaveUp)).isEmpty = false := by simpa using h
+      simp [this]
+    · have : s.closers.isEmpty = false := by simpa using h
+      simp [this]
+  unfold settle
+  simp only [hc, ↓reduceIte]
+  refine ⟨trivial, trivial, ?_⟩
+  intro e he hg
+  simp only [List.mem_append, List.mem_map, List.mem_filter]
+  right
+  exact ⟨e, ⟨he, by simp [hg]⟩, rfl⟩
+
+/-- non-vacuity, the schedule of a stale hand-over: A and B are written, A is cancelled, A's response is read in the
+    same loop iteration: nobody completes with it, and when the loop runs A is cancelled and B fails -/
+example : (Micro.run {} [.write 1, .write 2, .giveUp 1, .deliver, .tick]).log = [(1, .cancelled), (2, .disconnected)] := by
+  decide
+
+end HapVerif.ReqConn
